@@ -863,3 +863,57 @@ pub fn backref_heavy(rng: &mut Rng, shift: u32) -> Vec<u8> {
     b.extend_from_slice(&[0; 3]);
     b
 }
+
+/// A valid 256x256 stream whose predictor sub-image (64x64) consists of literal pixels that each cost 1 + 15 + 15 + 15
+/// bits (two-symbol green code, red/blue/alpha codes of depth 15, always the deepest symbol): the longest literal
+/// the sub-image loop can meet.  `shift` leading cheap pixels move the bit alignment.
+pub fn long_literals(rng: &mut Rng, shift: u32) -> Vec<u8> {
+    let (w, h) = (256u32, 256u32);
+    let mut viol = Violations::default();
+    let mut bw = BitWriter::new();
+    bw.bits(0x2f, 8);
+    bw.bits(w - 1, 14);
+    bw.bits(h - 1, 14);
+    bw.bit(false);
+    bw.bits(0, 3);
+    bw.bit(true);
+    bw.bits(0, 2); // predictor
+    bw.bits(0, 3); // block 4 -> 64 x 64
+    bw.bit(false); // no colour cache
+    let mut glens = vec![0u8; 280];
+    glens[0] = 1;
+    glens[1] = 1;
+    let g = CodeSpec::Normal(glens, false);
+    let genc = Enc::of(&g);
+    write_code(&mut bw, rng, &g, 280, &mut viol, None);
+    // depth-15 code over symbols 0..15: lengths 1,2,...,14,15,15 (Kraft sum 1)
+    let mut lens = vec![0u8; 256];
+    for i in 0..14 {
+        lens[i] = i as u8 + 1;
+    }
+    lens[14] = 15;
+    lens[15] = 15;
+    let deep = CodeSpec::Normal(lens, false);
+    let denc = Enc::of(&deep);
+    for _ in 0..3 {
+        write_code(&mut bw, rng, &deep, 256, &mut viol, None);
+    }
+    write_code(&mut bw, rng, &CodeSpec::Simple1(0, false), 40, &mut viol, None);
+    let total = 64u32 * 64;
+    for i in 0..total {
+        genc.put(&mut bw, (i & 1) as u16);
+        let sym = if i < shift { 0 } else { 14 + (rng.below(2) as u16) };
+        denc.put(&mut bw, sym);
+        denc.put(&mut bw, sym);
+        denc.put(&mut bw, sym);
+    }
+    bw.bit(false);
+    bw.bit(false);
+    bw.bit(false);
+    for a in [280usize, 256, 256, 256, 40] {
+        write_code(&mut bw, rng, &CodeSpec::Simple1(0, false), a, &mut viol, None);
+    }
+    let mut b = bw.bytes;
+    b.extend_from_slice(&[0; 3]);
+    b
+}
